@@ -25,7 +25,7 @@ TIERS = {
 }
 RULE = ('case = history of 1-8 assertions x reference state {matching, differing, missing} x kind label x regeneration '
         'setting {normal, all, named kinds} given by API or by argv spelling (-W, --write-all, --W, -w k, --w k, --write '
-        'k1 k2, --write k1,k2, with --wquiet / -v / -1 mixed in); 2-3 real processes per history. evaluations counts '
+        'k1 k2, --write k1,k2, mixtures, with --wquiet / -v / -1 mixed in), frame assertions with and without actual_path; 2-3 real processes per history. evaluations counts '
         'monitored assertions. Non-trivial = assertion under a regenerating setting, or with a differing/missing '
         'reference; distinct = fingerprint of (step, setting).')
 ASSUMPTIONS = [
